@@ -60,6 +60,16 @@ def scn_stall(rnd, sid):
             "sinkDelayUs": 0, "stallMs": 3400, "pre": [], "script": [], "script2": [], "heapctx": False, "kind": "sync-stall"}
 
 
+def scn_lastmsg(rnd, sid):
+    """the stop finds the last message still in the sink: the stopper has read "pending > 0" and is held right there
+    until the worker has finished that message (decrement included) - the classic place for a lost wake-up or a stale
+    read; forced with gates, then validated like every other execution"""
+    gates = [["W", "wk.begin"], ["M", "rs.enter"], ["M", "rs.wait.unlock"], ["W", "wk.end"], ["M", "rs.wait.relock"]]
+    return {"id": sid, "mode": rnd.choice(["logger", "bare"]), "producers": 1, "msgs": 1, "jitter": 0, "seed": sid,
+            "sinkDelayUs": rnd.choice([0, 300]), "pre": ["move"], "script": ["waitProducers", "reset"], "script2": [],
+            "heapctx": False, "kind": "life-lastmsg", "gates": gates}
+
+
 def scn_life(rnd, sid):
     """move / reset cycles while the producers are logging; sometimes a second stopper"""
     n = rnd.choice([1, 2, 2, 3, 4])
@@ -490,6 +500,9 @@ def run(pid, tier, seed):
     if pid == "C02":
         for _ in range(2 if tier == "quick" else 8):
             scns.append(scn_stall(rnd, len(scns) + 1))
+    if pid == "C04":
+        for _ in range(3 if tier == "quick" else 20):
+            scns.append(scn_lastmsg(rnd, len(scns) + 1))
     nsched = {"C02": 0, "C03": 6, "C04": 12}[pid] if tier == "quick" else {"C02": 0, "C03": 60, "C04": 150}[pid]
     behaviours = tlc_schedules(nsched, seed) if nsched else []
     for b in behaviours:
